@@ -89,6 +89,8 @@ type Op struct {
 	Reps  int       `json:"reps,omitempty"`
 	Seed  int64     `json:"seed,omitempty"`
 	Ops   []Op      `json:"ops,omitempty"`
+	// NoModel: the reference container does not execute this operation (it is judged by a relation between observed results)
+	NoModel bool `json:"nomodel,omitempty"`
 }
 
 type API struct {
@@ -681,6 +683,7 @@ const ctorsTable = `
 	probe.Ctors["fixt/pa.NewVal"] = pa.NewVal
 	probe.Ctors["fixt/pa.NewErr"] = pa.NewErr
 	probe.Ctors["fixt/pb.New"] = pb.New
+	probe.Ctors["fixt/pb.MkVal"] = pb.MkVal
 	probe.Ctors["fixt/pa.DecSame"] = pa.DecSame
 	probe.Ctors["fixt/pb.Dec"] = pb.Dec
 `
